@@ -17,6 +17,7 @@ import (
 	"runtime"
 	"runtime/debug"
 	"sync"
+	"sync/atomic"
 	"time"
 	"unsafe"
 )
@@ -199,6 +200,32 @@ func fatal(format string, a ...any) {
 	exit2()
 }
 
+// Watchdog: if the scheduler makes no step for a minute while a run is active, a thread is
+// stuck outside the shim's control (an uninstrumented blocking operation, an endless loop without
+// visible operations).  That is a machinery error (exit 2), never a finding.
+var (
+	wdProgress uint64
+	wdActive   int32
+	wdOnce     sync.Once
+)
+
+func watchdog() {
+	last, idle := uint64(0), 0
+	for {
+		time.Sleep(5 * time.Second)
+		p := atomic.LoadUint64(&wdProgress)
+		if atomic.LoadInt32(&wdActive) == 0 || p != last {
+			last, idle = p, 0
+			continue
+		}
+		idle++
+		if idle >= 12 {
+			fmt.Fprintf(stderr(), "zzvsched: FATAL no scheduling step for 60 s: a thread is blocked or spinning outside the scheduler's control\n")
+			exit2()
+		}
+	}
+}
+
 // Active reports whether a run is in progress.
 func Active() bool { return rr != nil }
 
@@ -222,8 +249,11 @@ func Run(cfg Config, body func()) *Exec {
 	}
 	rr = r
 	cur = nil
+	wdOnce.Do(func() { go watchdog() })
+	atomic.StoreInt32(&wdActive, 1)
 	r.spawn("main", body)
 	r.loop()
+	atomic.StoreInt32(&wdActive, 0)
 	ex := &Exec{Points: r.points, Steps: r.steps, HorizonHit: r.hit, Trace: r.trace, TraceHash: r.thash,
 		EndClock: time.Duration(r.clock), Threads: len(r.threads), Conflicts: r.conflict, Stalls: r.stalls}
 	for _, t := range r.threads {
@@ -565,6 +595,7 @@ func (r *run) loop() {
 			k = r.choose(n, nil, false, fp)
 		}
 		r.steps++
+		atomic.AddUint64(&wdProgress, 1)
 		if k == len(en) {
 			// clock transition
 			if !due && len(en) > 0 {
